@@ -90,4 +90,15 @@ def gdl1 (L γ : Coef) (n : Nat) : Spec :=
     init := [],
     metrics := [gdlMetric L γ n] }
 
+/-- `continuous_time_models.gradient_flow_convex`: `x⋆ ↦ 0` (value leaf 0), `x_t ↦ 1`, `∇f(x_t) ↦ 2` (value leaf 1); the metric is the
+derivative along `ẋ = −∇f(x)` of `V = t (f(x_t) − f⋆) + ½‖x_t − x⋆‖²`: `(f_t − f⋆) + ⟨t g, −g⟩ + ⟨x_t − x⋆, −g⟩` -/
+def gfcMetric (t : Coef) : EDict :=
+  EDict.add (EDict.add (EDict.sub [(EKey.f 1, 1)] [(EKey.f 0, 1)]) (PDict.ip (PDict.smul t [(2, 1)]) (PDict.neg [(2, 1)])))
+    (PDict.ip (PDict.sub [(1, 1)] [(0, 1)]) (PDict.neg [(2, 1)]))
+
+def gfc (t : Coef) : Spec :=
+  { samples := [([(0, 1)], [], [(EKey.f 0, 1)]), ([(1, 1)], [(2, 1)], [(EKey.f 1, 1)])],
+    init := [],
+    metrics := [gfcMetric t] }
+
 end Pepit.Method
